@@ -11,7 +11,7 @@ PROPS = {
     "C04": dict(fams=[("alggrid", 0, 0), ("s1", 300, 20000), ("he", 200, 5000)]),
     "C05": dict(fams=[("dec", 6000, 600000), ("dechdr", 2000, 100000), ("hdrgrid", 0, 0)]),
     "C06": dict(fams=[("dec", 2500, 300000), ("use", 2500, 200000), ("keygrid", 600, 60000), ("hist", 400, 30000),
-                      ("dechdr", 800, 50000), ("hev", 400, 20000)]),
+                      ("dechdr", 800, 50000), ("hacc", 600, 30000)]),
     "C07": dict(fams=[("tbsgrid", 0, 0), ("v1", 3000, 200000), ("vm", 1500, 100000), ("dec", 1500, 100000), ("reenc", 500, 20000)],
                 real=[("foreign", 100, 5000)]),
     "C08": dict(fams=[("enc", 3000, 300000), ("s1", 800, 40000), ("sm", 400, 20000), ("cs", 400, 20000),
@@ -20,7 +20,7 @@ PROPS = {
     "C10": dict(fams=[("tbsgrid", 0, 0), ("cs", 4000, 300000)]),
     "C11": dict(fams=[("signgrid", 0, 0), ("sm", 600, 60000), ("vm", 600, 60000)]),
     "C12": dict(fams=[("he", 3000, 200000)]),
-    "C13": dict(fams=[("hdrgrid", 0, 0), ("enc", 1000, 100000), ("dechdr", 1000, 100000)]),
+    "C13": dict(fams=[("hdrgrid", 0, 0), ("enc", 1000, 100000), ("dechdr", 1000, 100000), ("hacc", 400, 20000)]),
     "C14": dict(fams=[("keyrt", 600, 30000)], real=[("keysv", 60, 3000)]),
     "C15": dict(fams=[("keygrid", 1500, 150000)]),
     "C16": dict(fams=[("ecgrid", 0, 0), ("ecfault", 0, 0)]),
@@ -56,11 +56,12 @@ DEEP = {
     "C02": ["CoseProofs.Deep.Tbs"],
     "C03": ["CoseProofs.Deep.Tbs"],
     "C04": ["CoseProofs.FactsTie"],
-    "C05": ["CoseProofs.Deep.Reencode", "CoseProofs.Deep.Accept"],
+    "C05": ["CoseProofs.Deep.Reencode", "CoseProofs.Deep.Accept", "CoseProofs.Deep.SignMsg"],
     "C06": ["CoseProofs.Deep.NoPanic"],
     "C07": ["CoseProofs.Deep.Accept"],
     "C08": ["CoseProofs.Deep.Headers"],
-    "C09": ["CoseProofs.Deep.Reencode"],
+    "C09": ["CoseProofs.Deep.Reencode", "CoseProofs.Deep.SignMsg"],
+    "C11": ["CoseProofs.Deep.SignMsg"],
     "C10": ["CoseProofs.Deep.Tbs", "CoseProofs.FactsTie"],
     "C12": ["CoseProofs.Deep.Keys", "CoseProofs.Deep.Chain", "CoseProofs.FactsTie"],
     "C13": ["CoseProofs.Deep.Headers", "CoseProofs.FactsTie"],
